@@ -141,14 +141,15 @@ def run(ctx):
     check_unconditional_reindex(ctx, f, find(f, CG + "::remove_actor"))
     # ---------------- rollback
     rb = ctx.body(TI + "::rollback")
-    undo = [(bi, t) for bi, t in rb.calls() if callee(t) == OS + "::undo_op"]
+    undo = [(site, t, adaptor) for site, t, owner, adaptor in cfg.inlined_calls(f, rb) if callee(t) == OS + "::undo_op"]
     ctx.floor("undo_op calls in rollback", len(undo), 1)
-    for bi, t in undo:
-        pv = rb.provenance(t["args"][1], through_calls=True)
+    for bi, t, adaptor in undo:
+        # the op undone is an item of an iteration: either of the enclosing `for` loop or of the adaptor the closure is handed to
+        pv = rb.provenance(t["args"][1], through_calls=True) if adaptor is None else rb.provenance(adaptor["args"][0], through_calls=True)
         cs = {norm_fn(c) for c in pv.callees()}
         from_pending = any(".pending" in pr for _, pr in [rb.origin(l, pr) for l, pr in pv.places])
-        reversed_ = any(c.endswith("::rev") or "Rev<" in c for c in cs)
-        in_loop = any(rb.can_reach(s, bi) for s in rb.succ[bi])
+        reversed_ = any(c.endswith("::rev") or "Rev<" in c for c in cs) or (adaptor is not None and "Rev<" in " ".join(adaptor.get("ga", [])))
+        in_loop = any(rb.can_reach(s, bi) for s in rb.succ[bi]) if adaptor is None else norm_fn(adaptor.get("fn")).split("::")[-1] in ("for_each", "try_for_each", "fold", "try_fold")
         ctx.ob("R11-rollback", "rollback|undo_op over pending in reverse", from_pending and reversed_ and in_loop, t["sp"], "from pending: %s, reversed: %s, in loop: %s" % (from_pending, reversed_, in_loop))
         # every pending op is undone: no adaptor between `pending` and the loop drops elements
         dropping = sorted(c.split("::")[-1] for c in cs if re.search(r"::(filter|filter_map|skip|skip_while|take|take_while|step_by|map_while)$", c))
